@@ -188,7 +188,7 @@ def run_extra(sc):
     return None
 
 def gen_history(rnd):
-    g = Gen(rnd, BUILD, nmax=rnd.choice([4, 6, 9]), rich=True)
+    g = Gen(rnd, BUILD, nmax=rnd.choice([4, 6, 9]), rich=True, bare_defenses=True)
     g.gen(rnd.randint(6, 25)); g.ops.pop()
     n0 = len(g.ops)
     g.w = {'deepcopy': 1}; g.gen(n0 + 1); g.ops.pop()
